@@ -550,10 +550,11 @@ func enumerate(fn *ssa.Function, opt LeafOptions, cx *callCtx, cut bool) ([]*Lea
 						callee = callee.Origin()
 					}
 					var closure *ssa.MakeClosure
+					var closureFree []*Term
 					if mc, isMC := call.Call.Value.(*ssa.MakeClosure); isMC && callee != nil && callee.Parent() != nil && !opt.stack[callee] {
 						closure = mc // a local closure called on the spot
 					}
-					if callee != nil && len(callee.Blocks) > 0 && (viaTable || closure != nil || opt.Inline(callee)) {
+					if callee != nil && len(callee.Blocks) > 0 && (viaTable || closure != nil || closureFree != nil || opt.Inline(callee)) {
 						var args []*Term
 						for _, a := range call.Call.Args {
 							args = append(args, b.Term(a))
@@ -563,12 +564,19 @@ func enumerate(fn *ssa.Function, opt LeafOptions, cx *callCtx, cut bool) ([]*Lea
 						tr := func(t *Term) *Term { return Subst(renameLocals(t, off), args) }
 						var cl []*Leaf
 						var cerr error
-						if closure != nil {
+						if closure != nil || closureFree != nil {
 							// expanded in the context of the call: the captured variables are the caller's (private.go: a
 							// variable captured by closures that only read it stays private memory of the caller)
-							var free []*Term
-							for _, bd := range closure.Bindings {
-								free = append(free, b.Term(bd))
+							free := closureFree
+							if closure != nil {
+								if bt := bind[closure]; bt != nil && bt.Op == OClosure && len(bt.Args) == len(closure.Bindings) {
+									free = bt.Args
+								} else {
+									free = nil
+									for _, bd := range closure.Bindings {
+										free = append(free, b.Term(bd))
+									}
+								}
 							}
 							opt.stack[callee] = true
 							cl, cerr = enumerate(callee, opt, &callCtx{args: args, off: off, free: free, mem: mem}, false)
@@ -599,6 +607,15 @@ func enumerate(fn *ssa.Function, opt LeafOptions, cx *callCtx, cut bool) ([]*Lea
 							}
 							delete(opt.stack, callee)
 							tr = func(t *Term) *Term { return t }
+						}
+						if cerr == nil && cut && len(cuts) == 0 && closure == nil && closureFree == nil && failedInline(cl, fn.Prog, opt) && !opt.stack[callee] {
+							// a helper of the callee holds the loop (Decode -> decodeVector -> decodeTokens): the callee is
+							// expanded in the context of this call with loops cut, so that the helper's loop becomes the cut
+							opt.stack[callee] = true
+							if cl2, cerr2 := enumerate(callee, opt, &callCtx{args: args, off: off}, true); cerr2 == nil {
+								cl, tr = cl2, func(t *Term) *Term { return t }
+							}
+							delete(opt.stack, callee)
 						}
 						if cerr != nil {
 							// a callee that cannot be expanded (it loops, recurses, ...) stays an opaque call
@@ -780,6 +797,27 @@ func enumerate(fn *ssa.Function, opt LeafOptions, cx *callCtx, cut bool) ([]*Lea
 		return nil, err
 	}
 	return out, nil
+}
+
+// failedInline: some path of an expanded callee still calls a function that was to be expanded in place (its
+// expansion failed there: a loop that does not unroll without the caller's context).
+func failedInline(cl []*Leaf, prog *ssa.Program, opt LeafOptions) bool {
+	if opt.Inline == nil {
+		return false
+	}
+	for _, lf := range cl {
+		for _, ef := range lf.Effects {
+			if ef.Kind != "call" || ef.Val == nil || ef.Val.Op != OCall {
+				continue
+			}
+			if obj, ok := ef.Val.Obj.(*types.Func); ok {
+				if sf := prog.FuncValue(obj); sf != nil && len(sf.Blocks) > 0 && opt.Inline(sf) {
+					return true
+				}
+			}
+		}
+	}
+	return false
 }
 
 // hasListArg: one of the arguments is a spelled-out list (a literal table, a slice literal).
